@@ -151,6 +151,34 @@ theorem stop_ends_handler (s : St) (h : Reach (sys allFixed) s) (s' : St) (i : N
     simp at hp hic
     simp [hp, hic, ctxOf]
 
+/-- **the other handlers keep processing**: `runningHandlersWgLock` is only ever held by the waiter of Router.Close, so as
+    long as the router is not closed every receive loop that has a message in its hand can dispatch it – whatever was
+    stopped, whatever handler functions are still busy -/
+theorem other_handlers_keep_dispatching (s : St) (h : Reach (sys allFixed) s) (hc : s.closed = false)
+    (j : Nat) (y : Handler) (m : Nat) (hy : s.hs[j]? = some y) (hl : y.loop = .hold m) :
+    (act allFixed s (.dispatch j)).isSome = true := by
+  have hcore := reach_core allFixed rfl s h
+  have hwb : s.wB ≠ .held := by
+    intro hb
+    have hA := hcore.b (by rw [hb]; simp)
+    have := hcore.a1 hA
+    rw [hc] at this; cases this
+  simp [act, hy, hl, hwb]
+
+/-- the tail of a handler's goroutine (publisher Close, `handlersWg.Done()`, removal, `close(stopped)`) waits for no
+    invocation and for no other handler: each step is enabled as soon as the previous one is done (the removal only needs
+    `handlersLock`) -/
+theorem loop_tail_waits_for_nobody (fx : Fix) (s : St) (i : Nat) (y : Handler) (hy : s.hs[i]? = some y) :
+    (y.loop = .idle → y.pump = .done → (act fx s (.loopEnd i)).isSome = true) ∧
+    (y.loop = .pubClose → (act fx s (.pubClose i)).isSome = true) ∧
+    (y.loop = .wgDone → (act fx s (.wgDone i)).isSome = true) ∧
+    (y.loop = .delete → s.hl = .free → (act fx s (.loopDelete i)).isSome = true) := by
+  refine ⟨?_, ?_, ?_, ?_⟩
+  · intro h1 h2; simp [act, hy, h1, h2]
+  · intro h1; simp [act, hy, h1]
+  · intro h1; simp [act, hy, h1]
+  · intro h1 h2; simp [act, hy, h1, h2]
+
 /-- **a second Run returns an error**: from the first Run call on, a Run call only counts an error return and changes
     nothing else -/
 theorem second_run_errors (s : St) (h : Reach (sys allFixed) s) (hr : s.run ≠ .idle) :
